@@ -9,6 +9,8 @@ fed by the values the recursive call returns - then every return of the pass mus
 Round 5: a backward leaf start is the fill's start or min(user start, that) on every path (a user start kept as it is can lie
 after the end); a roll-up passed through round()/int() is not the sum; min/max(.., default=..) is the plain extremum; a visited
 flag kept on the task objects instead of a per-call memo (sched.PassShape.memo_on_task) makes a later calc skip tasks.
+Round 6: each task is scheduled once (sched_fill.scheduled_once, shared with C04); DirectCalendar looks its per-day table up
+with the day start (a raw moment gives two capacities for one day: start fraction vs end fraction).
 Not decided: start <= end of a leaf from the numeric interaction of day fractions.
 """
 from __future__ import annotations
@@ -69,6 +71,24 @@ def check(ctx):
                    ("backward: the first day the fill examines is the day before midnight(end'), so every booked day lies wholly "
                     "before the end and start = day + 1 day - booked share <= midnight(end') <= end"), floor=1)
         ctx.guarded(o, lambda o, S=S: fill_side(ctx, o, S))
+
+    for S in BOTH:
+        o = ctx.ob(f"{S['name']}_each_task_scheduled_once", 'R9',
+                   f"{S['name']}: a task is scheduled at most once per calc (memo test at the entry of the pass, or `x.id not in memo` at "
+                   f"every call): a task scheduled again after its summary was rolled up gets other dates than the ones its summary covers "
+                   f"- shared rule with C04", floor=1)
+
+        def once(o, S=S):
+            from . import sched_fill
+            sched_fill.scheduled_once(ctx, o, PassShape(ctx, S))
+        ctx.guarded(o, once)
+
+    o = ctx.ob('day_capacity_ignores_time_of_day', 'R8',
+               "DirectCalendar answers per calendar day: every lookup of its per-day table uses the date normalised to the start of the "
+               "day. The forward scheduler asks the capacity of the start day with the requested moment and of the end day with "
+               "midnight; a table that is keyed by day but looked up with the raw moment gives two capacities for one day and the "
+               "start fraction can pass the end", floor=1)
+    ctx.guarded(o, lambda o: per_day_lookup(ctx, o))
 
     o = ctx.ob('wbs_start_end', 'R8', "WBS.start = min(root starts), WBS.end = max(root ends), over all roots, None filter only", floor=2)
     ctx.guarded(o, lambda o: wbs_bounds(ctx, o))
@@ -226,6 +246,25 @@ def cleared(ctx, o, S):
         o.site(prep, lp, "for t in tasks: if children: start = end = estimate = spent = None")
 
 
+def _accumulated_comp(ps, name):
+    """the comprehension equivalent to the single accumulate loop that fills local list `name` (only .append in one loop, no
+    other mutation); None when the list is grown in any other way"""
+    import copy
+    cs = [c for c in facts.collects(ps.f) if c.kind == 'loop' and c.acc == name]
+    muts = [n for n in walk_no_nested(ps.f.node) if isinstance(n, ast.Call) and isinstance(n.func, ast.Attribute) and
+            isinstance(n.func.value, ast.Name) and n.func.value.id == name and
+            n.func.attr in ('append', 'extend', 'insert', 'remove', 'pop', 'clear', 'sort', 'reverse', 'add')]
+    augs = [d for d in ps.fl.defs_of(name) if d.kind == 'aug']
+    if len(cs) != 1 or len(muts) + len(augs) != 1:
+        return None
+    c = cs[0]
+    ifs = [copy.deepcopy(t) if p else ast.UnaryOp(op=ast.Not(), operand=copy.deepcopy(t)) for t, p in c.conds]
+    comp = ast.ListComp(elt=copy.deepcopy(c.elt), generators=[ast.comprehension(target=copy.deepcopy(c.target), iter=copy.deepcopy(c.iter),
+                                                                                 ifs=ifs, is_async=0)])
+    ast.copy_location(comp, c.node)
+    return ast.fix_missing_locations(comp)
+
+
 def _children_comp(ps, e, attr, at, allow_filter=True):
     """is e (expanded) a sequence of <child>.<attr> over ALL task.children (optional `is not None` filter)?
     returns 'ok' | ('bad', msg) | None (not recognised)"""
@@ -242,6 +281,11 @@ def _children_comp(ps, e, attr, at, allow_filter=True):
                         empty_guard = True
                 if empty_guard:
                     continue        # fallback for an empty list
+                if isinstance(d.value, ast.List) and not d.value.elts:
+                    # `xs = []` filled by one accumulate loop `for v in X: [if C:] xs.append(E)`  ==  [E for v in X if C]
+                    comp = _accumulated_comp(ps, e.id)
+                    verdicts.append(_children_comp(ps, comp, attr, d.node, allow_filter) if comp is not None else None)
+                    continue
                 verdicts.append(_children_comp(ps, d.value, attr, d.node, allow_filter))
             else:
                 verdicts.append(None)
@@ -524,6 +568,42 @@ def wbs_bounds(ctx, o):
                 good = None
         if good is False:
             o.refute(f, f.node, f'WBS.{attr}', f"WBS.{attr} never returns the {op} over the roots")
+
+
+def per_day_lookup(ctx, o):
+    prog = ctx.prog
+    f = prog.func('calendar.DirectCalendar.get_available_units')
+    date_p = f.params[1]
+    ex = Expander(prog, f, ctx.typer)
+    cfg = cfg_of(f)
+    table = '_DirectCalendar__units'
+    keys = []
+    for n in walk_no_nested(f.node):
+        if isinstance(n, ast.Subscript) and isinstance(n.ctx, ast.Load) and match(f"self.{table}", n.value):
+            keys.append((n, n.slice))
+        elif isinstance(n, ast.Call) and isinstance(n.func, ast.Attribute) and n.func.attr in ('get', 'pop', 'setdefault') and \
+                match(f"self.{table}", n.func.value) and n.args:
+            keys.append((n, n.args[0]))
+        elif isinstance(n, ast.Compare) and len(n.ops) == 1 and isinstance(n.ops[0], (ast.In, ast.NotIn)) and \
+                match(f"self.{table}", n.comparators[0]):
+            keys.append((n, n.left))
+    if not keys:
+        o.undecided(f, f.node, 'table lookup', "no lookup of the per-day table recognised in DirectCalendar.get_available_units")
+        return
+    for n, k in keys:
+        at = cfg.node_containing(n)
+        kx = ex.expand(k, at) if at is not None else k
+        mid = facts.is_midnight_of(kx)
+        if mid is None and isinstance(kx, ast.Call) and isinstance(kx.func, ast.Name) and kx.func.id == '_day_start' and len(kx.args) == 1:
+            mid = kx.args[0]
+        if mid is not None and isinstance(mid, ast.Name) and mid.id == date_p:
+            o.site(f, n, f"{src(n)[:50]}: key is the start of the day of `{date_p}`")
+        elif isinstance(kx, ast.Name) and kx.id == date_p:
+            o.refute(f, n, n, f"`{src(n)[:60]}` looks the per-day table up with the raw `{date_p}` (the table is keyed by day starts): a moment "
+                              f"with a time of day misses the entry, so the start day's capacity (asked with the requested moment) and the end "
+                              f"day's capacity (asked with midnight) differ for one and the same day and the start can pass the end")
+        else:
+            o.undecided(f, n, n, f"lookup key `{src(kx)[:50]}` is neither the start of the day of `{date_p}` nor `{date_p}` itself")
 
 
 def backward_leaf_start(ctx, o, ps: PassShape):
